@@ -35,13 +35,13 @@ func init() {
 	concSpec("C04", &ConcOpts{
 		Profile: Profile{Prop: "C04", NoRef: true, Keys: [2]int{3, 14}},
 		OpW:     sizeOps, Tasks: [2]int{2, 4}, OpsPer: [2]int{6, 30}, Prefill: [2]int{0, 10},
-		Executors: []string{"default", "default", "sync", "queued"}, TinyP: 5,
+		Executors: []string{"default", "default", "sync", "queued"}, TinyP: 5, Resize: true,
 		NonTrivial: func(o *ConcOutcome) bool { return o.Switches > 4 && o.Probes["bounded"] > 0 },
 	})
 	concSpec("C05", &ConcOpts{
 		Profile: Profile{Prop: "C05", NoRef: true, Keys: [2]int{3, 14}},
 		OpW:     sizeOps, Tasks: [2]int{2, 4}, OpsPer: [2]int{6, 30}, Prefill: [2]int{0, 10},
-		Executors: []string{"default", "default", "sync", "queued"}, TinyP: 5,
+		Executors: []string{"default", "default", "sync", "queued"}, TinyP: 5, Resize: true,
 		NonTrivial: func(o *ConcOutcome) bool { return o.Switches > 4 },
 	})
 	c6ops := map[string]int{}
